@@ -82,11 +82,26 @@ def run(pid, tier, seed):
     # ---- 3/4. corpus + correspondence -----------------------------------
     corr_bad = []
     corr_ops = list(getattr(mod, "CORR_OPS", []))
+    def from_code_under_test(e):
+        """an exception that escaped the per-call wrapper (a lazily evaluated result, say) but was raised while code of the package
+        under test was running is an observation about that code, not a harness failure"""
+        src = os.path.realpath(os.path.join(core.REPO, "src"))
+        tb = e.__traceback__
+        while tb is not None:
+            if os.path.realpath(tb.tb_frame.f_code.co_filename).startswith(src):
+                return True
+            tb = tb.tb_next
+        return False
+
     try:
         if ok_build or os.path.exists(os.path.join(core.LEAN, ".lake", "build", "bin", "driver")):
             corr_bad = mod.correspondence(ctx) or []
     except core.Infra:
         raise
+    except Exception as e:  # noqa: BLE001
+        if not from_code_under_test(e):
+            raise
+        corr_bad = [{"op": (corr_ops or ["correspondence"])[0], "input": None, "impl": f"the implementation raised {type(e).__name__}: {e} (outside a wrapped call)"}]
     bad_ops = sorted({b["op"] for b in corr_bad})
 
     # ---- 6. failing-input search on the implementation -------------------
@@ -104,7 +119,18 @@ def run(pid, tier, seed):
                 r["corpus"] = fn
                 failures.append(r)
     seen_sigs = {f.get("sig") for f in failures}
-    failures += [f for f in (mod.search(ctx) or []) if f.get("sig") not in seen_sigs]
+    try:
+        found = mod.search(ctx) or []
+    except core.Infra:
+        raise
+    except Exception as e:  # noqa: BLE001
+        if not from_code_under_test(e):
+            raise
+        found = []
+        if not corr_bad:
+            corr_bad = [{"op": (corr_ops or ["search"])[0], "input": None, "impl": f"the implementation raised {type(e).__name__}: {e} during the search (outside a wrapped call)"}]
+            bad_ops = sorted({b["op"] for b in corr_bad})
+    failures += [f for f in found if f.get("sig") not in seen_sigs]
 
     # ---- 7. verdict ------------------------------------------------------
     lines = []
